@@ -106,21 +106,17 @@ let check_run kind id events subs res final notes =
   (match ref_got with
    | New :: h ->
      bump ~by:(List.length h) "changes";
-     if not (walk_okb fsm_cfg New h) then mismatch "walk" id ("hist=" ^ digits_of_sts h);
+     (match first_bad_step fsm_cfg New h with
+      | Some (a, b) -> mismatch "walk" id (Printf.sprintf "edge=%d>%d hist=%s" (int_of_st a) (int_of_st b) (digits_of_sts h))
+      | None ->
+        match first_undocumented New h with
+        | Some (a, b) -> mismatch "walk" id (Printf.sprintf "edge=%d>%d undocumented hist=%s" (int_of_st a) (int_of_st b) (digits_of_sts h))
+        | None -> ());
      List.iter (check_sub id h) (split ';' subs)
    | _ -> mismatch "ref-first" id ("ref=" ^ digits_of_sts ref_got));
-  (* IsRunning agreement on poll pairs with nothing logged in between *)
-  let rec pairs = function
-    | a :: (b :: _ as t) ->
-      (match split ',' a, split ',' b with
-       | ["0"; "6"; v], ["0"; "7"; r] ->
-         bump "polls";
-         if (v = "2") <> (r = "1") then mismatch "isrunning" id (a ^ " " ^ b)
-       | _ -> ());
-      pairs t
-    | _ -> ()
-  in
-  pairs evs;
+  (* polls: each GetState / IsRunning observation is checked by the acceptor (labels LGet / LIsRun);
+     a pair cannot be compared directly because the runner may move between the two loads *)
+  List.iter (fun e -> match split ',' e with ["0"; "7"; _] -> bump "polls" | _ -> ()) evs;
   (* Run()'s result against the state read when it returned *)
   (match res with
    | "2" -> mismatch "hang" id notes
